@@ -121,6 +121,8 @@ class Interp:
             rcond[exc] = self.spec(text, u.entry, frame)
         rty = u.T(c.returns) if c.returns else None
         for kind, s, v in outcomes:
+            # vacuity canary: `False` must not be provable at the end of any path
+            u.oblige(s, z3.BoolVal(False), "canary", "end-" + kind, set())
             if kind in ("next", "return"):
                 for exc, cond in rcond.items():
                     u.oblige(s, z3.Not(cond), "post", "no-" + exc, c.props | {"C01"})
@@ -154,6 +156,8 @@ class Interp:
 
     def all_clauses(self, c):
         req, ens, mod, rai = list(c.requires), list(c.ensures), list(c.modifies), dict(c.raises)
+        if c.qname.endswith(".__init__") and not any(m.startswith("self.*") for m in mod):
+            mod = ["self.*@" + c.qname.rsplit(".", 1)[0]] + mod
         if c.implements:
             b = self.reg.contracts[c.implements]
             bc = self.all_clauses(b)
@@ -211,12 +215,15 @@ class Interp:
                     if out.get(k) != "*":
                         out.setdefault(k, []).append((guard, v.t))
                 continue
+            only_cls = None
+            if "@" in m:
+                m, only_cls = m.split("@")
             objtxt, _, f = m.rpartition(".")
             v = self.spec_val(objtxt, st, frame, binds=binds)
             if v.ty.k != "ref":
                 raise Unsupported("modifies %s: receiver is not an object" % m)
             if f == "*":
-                for fname, (K, fty) in self.ct.all_fields(v.ty.cls).items():
+                for fname, (K, fty) in self.ct.all_fields(only_cls or v.ty.cls).items():
                     key = "f:%s.%s" % (K, fname)
                     self.u.get_arr(st, key, self.u.T(fty))
                     if out.get(key) != "*":
@@ -669,6 +676,7 @@ class Interp:
         res = [("next", exit_st, None)]
         for kind, s2, v in outs:
             if kind in ("next", "continue"):
+                u.oblige(s2, z3.BoolVal(False), "canary", "loop%d-body-end" % n, set())
                 for cl in L.invariants:
                     self.oblige_split(s2, self.spec(cl.text, s2, frame, old=u.entry, entry=entry, binds=binds, assume=False), "inv-pres",
                                       "loop%d.%s" % (n, cl.label), cl.props)
@@ -792,6 +800,7 @@ class Interp:
                 if mode == "list":
                     u.oblige(s2, Ev(self, s2, frame).llen(lst) == cnt, "safe", "for-list-not-resized", {"C01"},
                              where=u.where(s, frame))
+                u.oblige(s2, z3.BoolVal(False), "canary", "loop%d-body-end" % n, set())
                 s3 = s2.fork()
                 for nm in _target_names(s.target):
                     s3.locals.pop(nm, None)
@@ -945,7 +954,12 @@ class Interp:
                 g = self.spec(r.text, st, fr2, binds=binds, assume=False)
                 self.oblige_split(st, g, "pre", "%s.%s" % (qname, r.label), r.props | {"C01"}, where=where)
             pre = st.fork()
-            tg = self.compile_modifies(cl["modifies"], pre, fr2, binds)
+            mods = cl["modifies"]
+            if fresh_self:
+                # the object under construction was allocated by this very call: its slots were unobservable before,
+                # so the constructor's writes to them need no havoc (they are the slots' arbitrary initial content)
+                mods = [m for m in mods if not m.startswith("self.*")]
+            tg = self.compile_modifies(mods, pre, fr2, binds)
             # callee's write targets must be inside this unit's own frame
             for k, lst in tg.items():
                 mine = u.mod.get(k, [])
